@@ -1,6 +1,7 @@
 import Exetera.Props.C09
 import Exetera.Props.C10.Basic
 import Exetera.Model.KernelSitesFilterIndex
+import Exetera.Model.KernelPathsFilterIndex
 /-!
 # C10 — the filter / re-index kernels of indexed strings (owning property: C09)
 
@@ -11,6 +12,14 @@ namespace Exetera.Props.C10
 open Exetera Exetera.FilterIndex Exetera.Spec
 
 theorem access_sites_covered_filter_index : ∀ k ∈ KernelSites.filterIndexSites, lookup k.1 = some k := by decide +kernel
+
+/-- the PATH CONDITION of every subscript occurrence in these kernels (enclosing loop guards, `if` / `elif` tests, negated
+    `else` branches and early exits), as regenerated from the current source (`Gen/KernelPaths.lean`), is exactly the one the
+    model was written against (`Model/KernelPathsFilterIndex.lean`): dropping or changing a test that dominates a subscript breaks
+    the build; and the table covers exactly the kernels of the site table -/
+theorem access_paths_covered_filter_index :
+    (∀ k ∈ KernelPaths.filterIndexPaths, lookupPaths k.1 = some k) ∧
+    KernelPaths.filterIndexPaths.map (·.1) = KernelSites.filterIndexSites.map (·.1) := by decide +kernel
 
 example : KernelSites.filterIndexSites.length = 2 := by decide
 
